@@ -33,10 +33,23 @@ PROP = {
                   "The binary is built with -race and GORACE=halt_on_error: any reported race ends the process with "
                   "exit 66 and is a violation whose replay is the program.json written before the program ran; every "
                   "query must produce a packable response echoing id and question or be refused by the access "
-                  "settings; no panic; no program may take longer than 90 s (normal: tens of ms).",
+                  "settings; no panic; no program may take longer than 90 s (normal: tens of ms). Every module gets "
+                  "the configuration-save callback home gives it (it reads every module's configuration back, as "
+                  "config.write does), so a callback invoked under a lock it needs shows as a stall. "
+                  "Further parts, each its own race-enabled binary with generated programs: the statistics module "
+                  "(updater || hourly flush || readers, the C09 programs); the query log (Add with memory sizes 1-1000 "
+                  "|| GET /control/querylog with search and paging || config updates, legacy config, clear || flush, "
+                  "rotation check, WriteDiskConfig, ShouldLog); the client registry (ApplyClientFiltering by "
+                  "ClientID / address / network / MAC of the DHCP lease, Find*, Range*, runtime clients, upstream "
+                  "configurations || Add / Update / RemoveByName / UpdateDHCP / UpdateAddress); the DHCP server "
+                  "(DISCOVER+REQUEST, REQUEST, DECLINE, RELEASE, one goroutine per message as server4 does || "
+                  "add/update/remove static lease and reset_leases through the HTTP handlers || HostByIP, IPByHost, "
+                  "MACByIP, Leases, status, WriteDiskConfig), whose end state must also hold every address and "
+                  "hardware address at most once.",
     "level_note": "Schedule sampling, not schedule exploration: a missing lock is detected only if both accesses "
-                  "happen in the same run. Queries enter at the dnsproxy handler boundary. DHCP static-lease changes "
-                  "and stats/query-log internals under -race are not part of this binary.",
+                  "happen in the same run. Queries enter at the dnsproxy handler boundary. DHCP configuration changes "
+                  "(set_config, reset) are not driven (the statement names DHCP leases); DHCPv6 message handling is "
+                  "not driven.",
     "shards": (4, 16),
     "workers": (4, 16),
     "replay_artifacts": ["program.json"],
